@@ -146,4 +146,41 @@ theorem dictToTask_ok (d : TDict) (t : Task) (h : dictToTask d = .ok t) :
       | none => simp [hv] at h2
       | some s => rfl
 
+/-- every task name written in `task_dep` (without `*`), `setup`, `calc_dep` or `getargs` of an accepted dict is a
+    dependency of the Task object, so that `TaskControl` checks it -/
+theorem dictToTask_refs (d : TDict) (t : Task) (h : dictToTask d = .ok t) :
+    (∀ n ∈ seqItems (get d .task_dep), n.contains chStar = false → n ∈ t.taskDep) ∧
+    (∀ n ∈ seqItems (get d .setup), n ∈ t.setupTasks) ∧
+    (∀ n ∈ seqItems (get d .calc_dep), n ∈ t.calcDep) ∧
+    (∀ e ∈ getargsEntries (get d .getargs), ∀ tk, e.2 = some tk → tk ∈ t.setupTasks) ∧
+    t.targets = seqItems (get d .targets) := by
+  obtain ⟨_, _, hi⟩ := dictToTask_ok d t h
+  obtain ⟨_, nm, ga, _, _, hga, ht⟩ := initTask_ok d t hi
+  subst ht
+  refine ⟨?_, ?_, ?_, ?_, rfl⟩
+  · intro n hn hs
+    have : ¬ chStar ∈ n := by simpa using hs
+    simp [mkTask, List.mem_filter, hn, this]
+  · intro n hn
+    simp [mkTask, hn]
+  · intro n hn
+    simp [mkTask, mem_dedup, hn]
+  · intro e he tk htk
+    have hmem : tk ∈ ga := by
+      unfold getargsStep at hga
+      split at hga
+      · rename_i hemp
+        have : getargsEntries (get d .getargs) = [] := by simpa using hemp
+        rw [this] at he; simp at he
+      · split at hga
+        · simp at hga
+        · split at hga
+          · simp at hga
+          · cases hga
+            simp only [List.mem_filterMap]
+            exact ⟨e, he, htk⟩
+    by_cases hs : tk ∈ seqItems (get d .setup)
+    · simp [mkTask, hs]
+    · simp [mkTask, mem_dedup, List.mem_filter, hmem, hs]
+
 end DoitModel.Load
